@@ -425,20 +425,36 @@ def rule_rotation_structure(ctx):
             ctx.report('R20.5', 'linearmap:%s:bound' % fname, 'src/%s:%s %s' % (cfile, line_of(loops[0]), fname),
                        '%s transforms particles i < %s, not all N particles: variational particles (displacement vectors in the same frame) are left untransformed' % (fname, val))
         if fname in ('reb_simulation_iadd', 'reb_simulation_isub'):
-            conds = [render(x['inner'][0]).replace(' ', '') for x in walk(cfront.body(f)) if x.get('kind') == 'IfStmt']
-            if '(N!=N2)' not in conds:
+            # the loop over the particles runs only when both simulations hold the same number of particles: an early
+            # `if (N != N2) return` before it or an enclosing `if (N == N2)` are the same guard
+            from . import pathcond, extents
+            pc = pathcond.conditions(f)
+            L_ = extents.lets(f)
+            guards = {extents.canon(extents.resolve(c_, L_)) for c_ in pc.get(id(loops[0]), [])}
+            if not ({'r.N==r2.N', 'r2.N==r.N'} & guards):
                 ctx.report('R20.5', 'linearmap:%s:sizes' % fname, 'src/tools.c %s' % fname, 'simulations with different particle numbers are not refused')
     # the degenerate (antiparallel) branch of init_from_to exists and returns a quaternion with r = 0 built from a cross product
     f = tu.func('reb_rotation_init_from_to')
     n += 1
-    deg = [x for x in walk(cfront.body(f)) if x.get('kind') == 'IfStmt' and 'isnormal' in render(x['inner'][0])]
-    if len(deg) != 1 or not render(deg[0]['inner'][0]).replace(' ', '').startswith('!'):
-        ctx.report('R20.5', 'from_to:degenerate', 'src/rotations.c reb_rotation_init_from_to', 'the antiparallel case (|from+to| not normal) is not handled before normalising across it')
-    else:
-        rets = [x for x in walk(deg[0]['inner'][1]) if x.get('kind') == 'ReturnStmt']
-        crosses = [x for x in walk(deg[0]['inner'][1]) if x.get('kind') == 'CallExpr' and callee_name(x) == 'reb_vec3d_cross']
-        if len(rets) != 3 or len(crosses) != 3:
-            ctx.report('R20.5', 'from_to:degenerate:axes', 'src/rotations.c reb_rotation_init_from_to', 'the degenerate branch does not choose among the three coordinate axes (%d returns, %d cross products)' % (len(rets), len(crosses)))
+    from . import pathcond as _pc
+    pcs = _pc.conditions(f)
+    muls = [x for x in walk(cfront.body(f)) if x.get('kind') == 'CallExpr' and callee_name(x) == 'reb_rotation_mul']
+    crosses = [x for x in walk(cfront.body(f)) if x.get('kind') == 'CallExpr' and callee_name(x) == 'reb_vec3d_cross']
+    anchor(muls, 'reb_rotation_init_from_to composes two half rotations with reb_rotation_mul')
+
+    def normal_path(node):
+        cs = pcs.get(id(node), [])
+        return any('isnormal' in c and not c.startswith('!') for c in cs)
+
+    def degenerate_path(node):
+        cs = pcs.get(id(node), [])
+        return any('isnormal' in c and c.startswith('!') for c in cs)
+    if not all(normal_path(m_) for m_ in muls):
+        ctx.report('R20.5', 'from_to:degenerate', 'src/rotations.c reb_rotation_init_from_to',
+                   'the composition of the two half rotations is not restricted to the case where |from+to| is a normal number: for antiparallel vectors it normalises a zero vector')
+    elif not any(degenerate_path(c_) for c_ in crosses):
+        ctx.report('R20.5', 'from_to:degenerate:axes', 'src/rotations.c reb_rotation_init_from_to',
+                   'the antiparallel case does not build its rotation axis from a cross product with a coordinate axis (%d cross products on that path)' % sum(1 for c_ in crosses if degenerate_path(c_)))
     # rotation.py forwards to the C implementation
     db = pyfront.pydb()
     rot = db.classes.get('Rotation')
